@@ -41,6 +41,8 @@ SELECTORS = ["pT", "rapidity", "pseudorapidity"]
 # ------------------------------------------------------------------ real code
 _OBJ = {}
 _NEW = [0]
+_VIA_RNG = __import__("random").Random(1101)
+_FORCE_VIA = [None]   # replay: run the input with the estimator used as built, deep-copied, unpickled, shallow-copied
 
 
 def qc(n, k, imag):
@@ -48,8 +50,21 @@ def qc(n, k, imag):
     from sparkx.flow.QCumulantFlow import QCumulantFlow
     _NEW[0] += 1
     if _NEW[0] % 2 == 0:
-        return _OBJ.setdefault((n, k, imag), QCumulantFlow(n=n, k=k, imaginary=imag))
-    return QCumulantFlow(n=n, k=k, imaginary=imag)
+        o = _OBJ.setdefault((n, k, imag), QCumulantFlow(n=n, k=k, imaginary=imag))
+    else:
+        o = QCumulantFlow(n=n, k=k, imaginary=imag)
+    # an estimator that went through copy / deepcopy / pickle (e.g. shipped to a worker) must behave like the original
+    via = {"plain": 1.0, "deepcopy": 0.0, "pickle": 0.1, "copy": 0.2}[_FORCE_VIA[0]] if _FORCE_VIA[0] else _VIA_RNG.random()
+    if via < 0.08:
+        import copy
+        o = copy.deepcopy(o)
+    elif via < 0.16:
+        import pickle
+        o = pickle.loads(pickle.dumps(o))
+    elif via < 0.22:
+        import copy
+        o = copy.copy(o)
+    return o
 
 
 def real_fc(k, imag, c):
@@ -807,6 +822,21 @@ def search(ctx, budget_s):
 
 
 def replay(ctx, path):
+    rc = 0
+    for via in ("plain", "deepcopy", "pickle", "copy"):
+        _FORCE_VIA[0] = via
+        _OBJ.clear()
+        r = _replay_one(ctx, path, via)
+        rc = max(rc, r)
+        if r:
+            break
+    _FORCE_VIA[0] = None
+    if rc == 0:
+        print("[C11] replay: property holds on this input now (estimator as built / deep-copied / unpickled / copied)")
+    return rc
+
+
+def _replay_one(ctx, path, via):
     d = json.loads(open(path).read())
     inp = d.get("input")
     if not inp or "kind" not in inp:
@@ -838,7 +868,6 @@ def replay(ctx, path):
         r = check_differential(inp["n"], inp["k"], inp["imaginary"], parts, inp["bins"], inp["selector"], inp["poi"])
     if r:
         print(f"VIOLATION property=C11 replay={path}")
-        print(r[1])
+        print(f"(estimator object: {via}) " + r[1])
         return 1
-    print("[C11] replay: property holds on this input now")
     return 0
